@@ -242,7 +242,7 @@ class KroneckerProductAddedDiagLinearOperator(AddedDiagLinearOperator):
                 #       = (\kron a_i^{1/2} Q_i)(\kron a_i^{-1} \Lambda_i + I)^{1/2}
                 scaled_evecs_list = []
                 for evec_, dlt_ in zip(evecs.linear_ops, dlt.linear_ops):
-                    scaled_evecs_list.append(evec_ * dlt_.diag_values.sqrt())
+                    scaled_evecs_list.append(evec_ * dlt_.diag_values.sqrt().unsqueeze(-1))
                 scaled_evecs = KroneckerProductLinearOperator(*scaled_evecs_list)
                 return MatmulLinearOperator(scaled_evecs, evals_p_i_root)
 
@@ -277,7 +277,7 @@ class KroneckerProductAddedDiagLinearOperator(AddedDiagLinearOperator):
                 #       = (\kron a_i^{1/2} Q_i)(\kron a_i^{-1} \Lambda_i + I)^{-1/2}
                 scaled_evecs_list = []
                 for evec_, dlt_ in zip(evecs.linear_ops, dlt.linear_ops):
-                    scaled_evecs_list.append(evec_ * dlt_.diag_values.sqrt())
+                    scaled_evecs_list.append(evec_ * dlt_.diag_values.sqrt().unsqueeze(-1))
                 scaled_evecs = KroneckerProductLinearOperator(*scaled_evecs_list)
                 return MatmulLinearOperator(scaled_evecs, evals_p_i_inv_root)
 
